@@ -3,7 +3,7 @@
    Export.tla.
 
    A trace is   Reset(mode, local, peer)  followed by
-     mode "export" : one  Export(route, obs)  line - the stored route was handed to
+     mode "export" : two  Export(to, route, obs)  lines - the SAME stored route was handed to
                      BgpServer.processOutgoingPaths for the target `peer`;
                      obs = [before, adv, out, after]: projection of the stored path before the
                      call, "yes"/"no"/"withdraw", projection of the attributes of the produced
@@ -30,23 +30,28 @@ IsEvent(e) == l <= TLen /\ Trace[l].ev = e /\ l' = l + 1
 
 TReset == /\ IsEvent("Reset")
           /\ ctx' = [mode |-> Trace[l].mode, local |-> Trace[l].local, peer |-> Trace[l].peer,
-                     tid |-> Trace[l].tid]
+                     peer2 |-> Trace[l].peer2, tid |-> Trace[l].tid]
           /\ ev' = NoEv /\ ribs' = <<>>
 
 Tag(r) == IF r.comm = <<>> THEN 0 ELSE r.comm[1]
 
+(* The same stored path is exported twice: line to = 1 towards ctx.peer, line to = 2 towards
+   ctx.peer2 (another peer, or ctx.peer again = re-export).  Both copies are judged against the
+   ORIGINAL route: an export that damages the stored route is caught by C09_StoredUnchanged on
+   that step and by C09_Attrs / the stored-route clause on the next one. *)
 TExport ==
   /\ IsEvent("Export") /\ ctx.mode = "export"
   /\ LET r == Trace[l].route
          o == Trace[l].obs
-     IN /\ ev' = [kind |-> "export", route |-> r, obs |-> o]
+         t == IF Trace[l].to = 2 THEN ctx.peer2 ELSE ctx.peer
+     IN /\ ev' = [kind |-> "export", route |-> r, obs |-> o, peer |-> t, to |-> Trace[l].to]
         (* binding: the path the harness built projects back to the abstract route *)
-        /\ Assert(o.before.attrs = Attrs(r) /\ ~o.before.wd,
+        /\ Assert(Trace[l].to # 1 \/ (o.before.attrs = Attrs(r) /\ ~o.before.wd),
                   <<"harness built a path that does not project to the route", ctx.tid>>)
         /\ Assert(o.adv \in {"yes", "no", "withdraw"}, <<"unexpected number of produced paths", ctx.tid>>)
         (* distinct non-trivial cases: something was sent (attribute rules exercised), or the
            route was one that must not be sent (loop-prevention rules exercised) *)
-        /\ NoteIf(o.adv = "yes" \/ ~MayAdvertise(r, ctx.peer, ctx.local), ctx.tid)
+        /\ NoteIf(o.adv = "yes" \/ ~MayAdvertise(r, t, ctx.local), <<ctx.tid, Trace[l].to>>)
   /\ UNCHANGED <<ctx, ribs>>
 
 PrevRib(k) == IF k \in DOMAIN ribs THEN ribs[k] ELSE {}
@@ -74,16 +79,18 @@ IsRecv   == ev.kind = "recv"
 (* what is sent carries the attributes the peer's type requires *)
 C09_Attrs ==
   (IsExport /\ ev.obs.adv = "yes") =>
-    AttrsVerdict(ev.obs.out, ev.route, ctx.peer, ctx.local) = "ok"
+    AttrsVerdict(ev.obs.out, ev.route, ev.peer, ctx.local) = "ok"
 
 (* never back to the router it came from / to an eBGP peer whose AS is in the path /
    non-client to non-client *)
 C09_MayAdvertise ==
-  (IsExport /\ ev.obs.adv = "yes") => WhyNot(ev.route, ctx.peer, ctx.local) = "ok"
+  (IsExport /\ ev.obs.adv = "yes") => WhyNot(ev.route, ev.peer, ctx.local) = "ok"
 
 (* producing the peer's copy never alters the stored route (attributes, flags, and the spare
    capacity of every attribute slice) *)
-C09_StoredUnchanged == IsExport => ev.obs.after = ev.obs.before
+C09_StoredUnchanged ==
+  IsExport => /\ ev.obs.after = ev.obs.before
+              /\ ev.obs.before.attrs = Attrs(ev.route)     \* still the route that was stored
 
 (* a received route with the own AS beyond allow-own-as, the own router-id as ORIGINATOR_ID or the
    own cluster-id in CLUSTER_LIST is not used *)
@@ -101,8 +108,8 @@ C09_InboundNoStale ==
    is sent back into that member-AS (observed: target C1 AS 65010, stored [CSEQ 65011 65010] ->
    sent [CSEQ 65000 65011 65010]); the receiver's own-AS check drops it. *)
 Info_ConfedLoopStrict ==
-  (IsExport /\ ev.obs.adv = "yes" /\ ctx.peer.kind = "confed") =>
-    ctx.peer.as \notin ASSet(RepPeer(ev.route.aspath, ctx.peer, SessionAS(ctx.peer, ctx.local)))
+  (IsExport /\ ev.obs.adv = "yes" /\ ev.peer.kind = "confed") =>
+    ev.peer.as \notin ASSet(RepPeer(ev.route.aspath, ev.peer, SessionAS(ev.peer, ctx.local)))
 
 (* KNOWN FINDING KF-C09-cluster-loop-used: peer.handleUpdate does not look at CLUSTER_LIST; the
    route is installed and used (only BgpServer.filterpath refrains from reflecting it to
@@ -113,10 +120,10 @@ OnlyClusterReason == /\ ClusterLoop(ev.route, ctx.peer, ctx.local)
 C09_Inbound_KF == C09_Inbound \/ (IsRecv /\ OnlyClusterReason)
 
 (* informational: the code follows the mechanism model exactly *)
-Conf_Advertise == IsExport => ev.obs.adv = MechAdvertise(ev.route, ctx.peer, ctx.local)
+Conf_Advertise == IsExport => ev.obs.adv = MechAdvertise(ev.route, ev.peer, ctx.local)
 Conf_Attrs ==
   (IsExport /\ ev.obs.adv = "yes") =>
-    LET m == MechAttrs(ev.route, ctx.peer, ctx.local)
+    LET m == MechAttrs(ev.route, ev.peer, ctx.local)
     IN [ev.obs.out EXCEPT !.aspath = Norm(@)] = [m EXCEPT !.aspath = Norm(@)]
 Conf_Inbound ==
   IsRecv => (SeqToSet(ev.obs.rib) = IF MechUsed(ev.route, ctx.peer, ctx.local) THEN {Tag(ev.route)} ELSE {})
